@@ -16,6 +16,8 @@ import sys
 import time
 
 HERE = os.path.dirname(os.path.dirname(os.path.abspath(__file__)))
+# development runs against scratch copies (tools/seedrun.py) write elsewhere, so the evidence of the real tree is kept
+OUT = os.environ.get("VERIF_OUT") or HERE
 FINDINGS_FILE = os.path.join(HERE, "known_findings.json")
 
 
@@ -82,7 +84,7 @@ def main(argv=None):
     for i, c in enumerate(cases):
         c.setdefault("idx", i)
 
-    workdir = os.path.join(HERE, "replays", ".work", f"{prop}-{os.getpid()}")
+    workdir = os.path.join(OUT, "replays", ".work", f"{prop}-{os.getpid()}")
     os.makedirs(workdir, exist_ok=True)
     records = []
     dead = []
@@ -171,7 +173,7 @@ def report(mod, prop, tier, seed, cases, records, dead, wall):
                 new_violations.append((r, unlisted))
 
     # replay files for unlisted violations
-    rdir = os.path.join(HERE, "replays", prop)
+    rdir = os.path.join(OUT, "replays", prop)
     os.makedirs(rdir, exist_ok=True)
     lines = []
     for r, vs in new_violations[:50]:
@@ -226,8 +228,8 @@ def report(mod, prop, tier, seed, cases, records, dead, wall):
         "wall_s": round(wall, 2),
         "violations": len(new_violations),
     }
-    os.makedirs(os.path.join(HERE, "evidence"), exist_ok=True)
-    json.dump(evidence, open(os.path.join(HERE, "evidence", f"{prop}.json"), "w"), indent=1, default=str)
+    os.makedirs(os.path.join(OUT, "evidence"), exist_ok=True)
+    json.dump(evidence, open(os.path.join(OUT, "evidence", f"{prop}.json"), "w"), indent=1, default=str)
 
     print(f"[{prop}] tier={tier} seed={seed} cases={len(records)}/{len(cases)} status={dict(status)} distinct={len(sigs)} wall={wall:.1f}s")
     print(f"[{prop}] observed: {dict(obs)}")
